@@ -5,6 +5,16 @@ import os, subprocess, tempfile, shutil, glob, json, sys
 from concurrent.futures import ThreadPoolExecutor
 verif='/verif'; exe=os.path.join(verif,'bin','foxcheck')
 impl=subprocess.run([exe,'-list'],capture_output=True,text=True).stdout.split()
+# BASELINE: obligations that already fail on the unchanged tree (the known findings) are not counted against a patch
+def _base(prop):
+    r=subprocess.run([exe,'-inner','-property',prop,'-repo','/repo'],capture_output=True,text=True)
+    line=[l for l in r.stdout.splitlines() if l.startswith('INNER-SUMMARY ')]
+    if not line: return set()
+    return set(f['Key'] for f in (json.loads(line[0][len('INNER-SUMMARY '):])['failed'] or []))
+BASE={}
+def base(prop):
+    if prop not in BASE: BASE[prop]=_base(prop)
+    return BASE[prop]
 seeds=sorted(glob.glob(os.path.join(verif,'seeded','C*-*','patch.diff')))
 def run(seed):
     sid=os.path.basename(os.path.dirname(seed)); own=sid.split('-')[0]
@@ -21,7 +31,7 @@ def run(seed):
             if not line:
                 res['detected_by'][prop]=['NO-VERDICT: '+(r.stderr.strip().splitlines() or ['?'])[0][:100]]; continue
             s=json.loads(line[0][len('INNER-SUMMARY '):])
-            keys=sorted(set(f['Key'].split('/')[0] for f in (s['failed'] or [])))
+            keys=sorted(set(f['Key'].split('/')[0] for f in (s['failed'] or []) if f['Key'] not in base(prop)))
             if keys: res['detected_by'][prop]=keys
         own_hits=[k for k in res['detected_by'].get(own,[]) if not k.startswith('NO-VERDICT')]
         res['own_check']='detected' if own_hits else ('no-verdict' if own in res['detected_by'] else 'MISSED')
